@@ -28,7 +28,7 @@ func init() {
 		Assumptions: []string{"generic instantiations are not distinguished (the generic body is analysed once)", "container/list behaves as documented"},
 		Tech:        "static analysis: lock-state dataflow, structural pairing (must-pass-through both ways), guarded-by-condition and per-implementation Admit-populates-what-Access/Remove-index contract on the SSA of the generic bodies",
 		NeedU1:      true,
-		Rules:       []func(*Ctx){ruleC15Lock, ruleC15Bijection, ruleC15Bounded, ruleC15CallbackExactlyOnce, ruleC15AdmitRegisters, ruleC15RegistrationFollowsSegment, ruleC15SegmentFlagFollowsList, ruleC15ListEndsNonEmpty, ruleC15NoReentry, ruleC15RemoveUnlinks, ruleC15RelinkIsAMove, ruleC15ElementRecorded, ruleC15SegmentMoveConserves, ruleC15RemovalNotifies, ruleC15VictimNonNil, ruleC15SetStoresValue, ruleC15SetStampsExpiration, ruleC15ExpirationWrittenOnlyBySet, ruleC15ValuesAreOpaque, ruleC15ReflectAccessorMatchesKind, ruleC15CallbackBoundAtBuild, ruleC15VictimNotEmptyHanded, ruleC15UnlinkBeforeNotify, ruleC15VictimEnd, ruleC15AccessRefreshes, ruleC15SegmentOpsMatchFlag, ruleC15LFUOrderedList, ruleC15ExpiryEvicts, ruleC15LFUBucket, ruleC15LFUBucketImmutable, ruleC15LookupUseAtomic, ruleC15PolicySelection, ruleC15EventLoopLockFree, lockBalancedRule("C15", 8, lockDomSpec{pkgCache, "cache", "mux"}), noWriteToNilledMapRule("C15", pkgCache), nilContradictionRule("C15", false, "github.com/godaddy/asherah/go/appencryption/pkg/cache"), ruleC15FilterGeometryFixed, ruleC15LFUNoEmptyBucket, ruleC15PromotionFlagBeforeRebalance, ruleC15PolicyCapacityIsTheConfigured},
+		Rules:       []func(*Ctx){ruleC15Lock, ruleC15Bijection, ruleC15Bounded, ruleC15CallbackExactlyOnce, ruleC15AdmitRegisters, ruleC15RegistrationFollowsSegment, ruleC15SegmentFlagFollowsList, ruleC15ListEndsNonEmpty, ruleC15NoReentry, ruleC15RemoveUnlinks, ruleC15RelinkIsAMove, ruleC15ElementRecorded, ruleC15SegmentMoveConserves, ruleC15RemovalNotifies, ruleC15VictimNonNil, ruleC15SetStoresValue, ruleC15SetStampsExpiration, ruleC15ExpirationWrittenOnlyBySet, ruleC15ValuesAreOpaque, ruleC15ReflectAccessorMatchesKind, ruleC15CallbackBoundAtBuild, ruleC15VictimNotEmptyHanded, ruleC15UnlinkBeforeNotify, ruleC15VictimEnd, ruleC15AccessRefreshes, ruleC15SegmentOpsMatchFlag, ruleC15LFUOrderedList, ruleC15ExpiryEvicts, ruleC15LFUBucket, ruleC15LFUBucketImmutable, ruleC15LookupUseAtomic, ruleC15PolicySelection, ruleC15EventLoopLockFree, lockBalancedRule("C15", 8, lockDomSpec{pkgCache, "cache", "mux"}), noWriteToNilledMapRule("C15", pkgCache), nilContradictionRule("C15", false, "github.com/godaddy/asherah/go/appencryption/pkg/cache"), ruleC15FilterGeometryFixed, ruleC15LFUNoEmptyBucket, ruleC15PromotionFlagBeforeRebalance, ruleC15PolicyCapacityIsTheConfigured, ruleC15GetOrPanicGoesThroughGet, ruleC15LFUAdmitStartsAtOne},
 	})
 }
 
